@@ -9,7 +9,7 @@ correspond.: Lean model (Model/Sdf.lean, through the compiled driver, fed with t
 """
 import json, re
 import numpy as np
-from . import common
+from . import common, textmut
 
 PID = 'C14'
 TARGETS = ['KyupyVerif.Props.C14']
@@ -432,6 +432,134 @@ def eval_case(case):
     return True, None, None
 
 
+# ---------------------------------------------------------------------------------------------- text level (grammar)
+_lark = None
+
+
+def lark_tree(text):
+    """the parse tree of the REAL grammar (lark, no transformer) as (designs, cells) or None when lark rejects;
+    cells = [(ID tokens, [[(kind, a, b, [None | [f1, f2, f3]])]])], all token texts verbatim"""
+    global _lark
+    from lark import Lark, Token, Tree
+    from kyupy import sdf
+    if _lark is None or _lark[0] is not sdf.GRAMMAR:
+        _lark = (sdf.GRAMMAR, Lark(sdf.GRAMMAR, parser='lalr'))
+    try:
+        t = _lark[1].parse(text)
+    except Exception:
+        return None
+    designs = [str(a) for a in t.children if isinstance(a, Token)]
+    cells = []
+    for c in t.children:
+        if not isinstance(c, Tree): continue
+        insts = [str(a) for a in c.children if isinstance(a, Token)]
+        secs = []
+        for d in c.children:
+            if not isinstance(d, Tree): continue
+            es = []
+            for e in d.children:
+                names = [str(a) for a in e.children if isinstance(a, Token)]
+                vals = [None if not tr.children else [str(x)[:-1] for x in tr.children]
+                        for tr in e.children if isinstance(tr, Tree)]
+                es.append(('I' if e.data == 'iopath' else 'C', names[0], names[1], vals))
+            secs.append(es)
+        cells.append((insts, secs))
+    return designs, cells
+
+
+def enc_tree(tr):
+    designs, cells = tr
+    j = lambda sep, l: sep.join(l) if l else '~'
+    trip = lambda t: 'E' if t is None else ','.join(pct(x) for x in t)
+    ent = lambda e: f'{e[0]}:{pct(e[1])}:{pct(e[2])}:' + j('/', [trip(t) for t in e[3]])
+    cell = lambda c: j(',', [pct(n) for n in c[0]]) + '|' + j('+', [j('&', [ent(e) for e in sec]) for sec in c[1]])
+    return j(',', [pct(n) for n in designs]) + '|' + j(';', [cell(c) for c in cells])
+
+
+TEXT_ALPHABET = '()()  \n\t":/-.0123456789\\abAIZ[]x\r\f'
+TEXT_FRAGMENTS = ['(INSTANCE x)', '(INSTANCE)', '(TIMINGCHECK (a (b) c) d)', '(TIMINGCHECK)', '(PROCESS)', '(PROCESS )',
+                  '(CELLTYPE "x")', '(DELAY (ABSOLUTE))', '(IOPATH a b ())', '(INTERCONNECT "a b" c (1::))', '(CELL)',
+                  '// ) (\n', '\r\n', '\n\n', ' \t', '(DESIGN "a")', '(DATE x)', '1', '.', '-', '(a b)', '(CELL', '(INSTANCE',
+                  '(DELAY', '(ABSOLUTE', '(IOPATH', '(INTERCONNECT', '(TIMINGCHECK', '(CELLTYPE', '(DESIGN', '(PROCESS', '//',
+                  '()', '(::)', ' ', '\n', ')', '(', '(posedge A)', '"', '(1:2:3)', '( )']
+HAND_TEXTS = ['(DELAYFILE)', '(DELAYFILE )\n// c', '(DELAYFILE (CELL (INSTANCE\nu1)))', '(DELAYFILE (CELL (INSTANCEu1)))',
+              '(DELAYFILE (CELL (INSTANCE // c\n u1)))', '(DELAYFILE (CELL (INSTANCE \t u1)))', '(DELAYFILE (CELL (INSTANCE \tu1 )))',
+              '(DELAYFILE (SDFVERSION // ) (\n x))', '(DELAYFILE (SDFVERSION x // ) \n))', '(DELAYFILE (PROCESS // )\n))',
+              '(DELAYFILE (DESIGN " // x\n top"))', '(DELAYFILE (DESIGN ""))', '(DELAYFILE (CELLTYPE "x"))',
+              '(DELAYFILE (CELL (TIMINGCHECK x)))', '(DELAYFILE (CELL (TIMINGCHECK (x (y) z) w (v))))',
+              '(DELAYFILE (CELL (TIMINGCHECK (x // )\n) )))', '(DELAYFILE (CELL (DELAY (ABSOLUTE (IOPATH (posedge A) "Z" ( 1:2:3))))))',
+              '(DELAYFILE (CELL (DELAY (ABSOLUTE (IOPATH A Z (1: 2:3))))))', '(DELAYFILE (CELL (DELAY (ABSOLUTE (IOPATH A Z (1:2:3 ))))))',
+              '(DELAYFILE (CELL (DELAY (ABSOLUTE (INTERCONNECT "a b" "c\nd" (1.:.2:-3.5) (--1::))))))',
+              '(DELAYFILE (CELL (DELAY (ABSOLUTE (INTERCONNECT (a) b ())))))', '(DELAYFILE (CELL (DELAY (ABSOLUTE (IOPATH "a b ()))))',
+              '(DELAYFILE (CELL (DELAY(ABSOLUTE(IOPATH a b()())))))', '(DELAYFILE (CELL (DELAY (ABSOLUTE (IOPATH a b) (IOPATH c d () () ())))))',
+              '(DELAYFILE (CELL) x)', '(DELAYFILE (CELL)) x', '(DELAYFILE (CELL))\r\n\t // end', '(DELAYFILE (CELL))\r', ' \n(DELAYFILE(CELL))',
+              '(DELAYFILE (VERSION x) (VENDOR y) (VOLTAGE 1:2:3) (TEMPERATURE 2) (TIMESCALE 1ns) (DIVIDER /) (PROGRAM "a (b)"))']
+
+
+def mutate_text(rng, text):
+    m = textmut.mutate(rng, text, TEXT_ALPHABET, TEXT_FRAGMENTS, '()')
+    if rng.random() < 0.25: m = textmut.mutate(rng, m, TEXT_ALPHABET, TEXT_FRAGMENTS, '()')
+    return m
+
+
+def real_parse_status(text):
+    from kyupy import sdf
+    with quiet():
+        try:
+            sdf.parse(text)
+            return 'ok'
+        except Exception:
+            return 'raise'
+
+
+def text_level(ck, texts, origin, case=None, c=None, mode=None):
+    """model reader (driver `sdfparse`) against the real lark grammar and the real `sdf.parse` on each text:
+    same parse tree (token texts verbatim) or both reject; same accept/raise of the transformer; when `case` is
+    given and the text is accepted, the delay arrays of the post-parse model fed with the MODEL's block list against
+    the real arrays of that text"""
+    outs = textmut.drv([f'sdfparse {pct(t)}' for t in texts])
+    for t, o in zip(texts, outs):
+        lt = lark_tree(t)
+        exp = 'syntax' if lt is None else real_parse_status(t) + ' ' + enc_tree(lt)
+        f = o.split(' ')
+        got = o if len(f) < 3 else f[0] + ' ' + f[1]
+        ck.case(key=('text', t), nontrivial=lt is not None,
+                tag=[f'text:{origin}', 'text-result:' + exp.split(' ')[0]])
+        if got != exp:
+            ck.broken_tie(f'SDF text model (grammar of sdf.py) vs lark, {origin} text',
+                          f'real {exp[:300]} != model {got[:300]}', inp={'sdf': t})
+            continue
+        if case is not None and f[0] == 'ok' and len(f) == 3 and f[2] != '-':
+            sub = dict(case); sub['sdf'] = t
+            io, ic = real_arrays(sub, c)
+            try:
+                mio, mic = model_arrays(sub, c, mode, bl=f[2])
+            except Exception as ex:
+                ck.broken_tie('SDF text model -> post-parse model', f'driver: {type(ex).__name__}: {ex}'[:300], inp={'sdf': t})
+                continue
+            ck.hist['text-arrays-compared'] += 1
+            for which, r, m in (('iopaths', io, mio), ('interconnects', ic, mic)):
+                if isinstance(r, str) and which == 'iopaths' and r.startswith('raise'):
+                    continue   # unknown pin / cell.ins index out of range on a damaged name: outside the pin table's domain
+                if isinstance(r, str) and which == 'interconnects' and isinstance(m, np.ndarray):
+                    continue   # unknown cell or pin in a damaged INTERCONNECT raises in the real code (outside the tables' domain)
+                if not same(r, m):
+                    ck.broken_tie(f'SDF text model + post-parse model ({which}, start mode {mode}) vs real, {origin} text',
+                                  f'real {json.dumps(sparse(r))[:300]} != model {json.dumps(sparse(m))[:300]}', inp={'sdf': t})
+
+
+def text_generated(ck, case, c, mode, n_mut):
+    """the generated text must read back as the generator's block list; then its mutants"""
+    t = case['sdf']
+    o = textmut.drv([f'sdfparse {pct(t)}'])[0].split(' ')
+    want = enc_blocks(case['blocks'])
+    if len(o) != 3 or o[0] != 'ok' or o[2] != want:
+        ck.broken_tie('SDF text model: generated text does not read back as the generator\'s block list',
+                      f'model {" ".join(o)[:300]} != generator {want[:300]}', inp={'sdf': t})
+    text_level(ck, [t], 'generated')
+    text_level(ck, [mutate_text(ck.rng, t) for _ in range(n_mut)], 'mutated', case, c, mode)
+
+
 # ---- model side
 def enc_triple(t):
     return 'E' if not t else ','.join('x' if v is None else str(v) for v in t)
@@ -466,10 +594,10 @@ def tables(case, c):
     return ';'.join(pins) or '~', ';'.join(ics) or '~'
 
 
-def model_arrays(case, c, mode):
+def model_arrays(case, c, mode, bl=None):
     L = len(c.lines)
     pins, ics = tables(case, c)
-    bl = enc_blocks(case['blocks'])
+    if bl is None: bl = enc_blocks(case['blocks'])
     out = common.run_driver([f'sdf {mode} io {L} {bl} {pins} {ics}', f'sdf {mode} ic {L} {bl} {pins} {ics}'])
     res = []
     for o in out:
@@ -558,6 +686,11 @@ def run_case(ck, case, kind, mode, notes):
             if not same(r, m):
                 ck.broken_tie(f'SDF model correspondence ({which}, start mode {mode})',
                               f'real {json.dumps(sparse(r))[:300]} != model {json.dumps(sparse(m))[:300]}', inp=case)
+    if mio is not None and notes.get('__text_mut__', 0):
+        try:
+            text_generated(ck, case, c, mode, notes['__text_mut__'])
+        except Exception as ex:
+            ck.broken_tie('SDF text model correspondence', f'{type(ex).__name__}: {ex}'[:300], inp={'sdf': case['sdf']})
     if not has_top(case) and isinstance(ic, str):
         notes['no-top-block: interconnects() raised ' + ic] = notes.get('no-top-block: interconnects() raised ' + ic, 0) + 1
     # ---- oracle
@@ -621,7 +754,7 @@ def run(ck):
     ck.prove([], TARGETS, theorems())
     mode = probe_mode()
     ck.extra['start_mode_of_code_under_test'] = mode
-    notes = {}
+    notes = {'__text_mut__': 2}
     if mode not in ('last', 'merge'):
         ck.broken_tie('SDF model correspondence (start)', f'SdfTransformer.start follows neither modelled behaviour: {mode}')
         mode = 'last'
@@ -632,6 +765,13 @@ def run(ck):
     run_stream(ck, n // 2, 'overlap', mode, notes)
     malformed(ck, mode)
     try:
+        text_level(ck, HAND_TEXTS, 'hand-written')
+        for t in HAND_TEXTS:
+            text_level(ck, [mutate_text(ck.rng, t) for _ in range(3 * ck.scale)], 'mutated')
+    except Exception as ex:
+        ck.broken_tie('SDF text model correspondence', f'{type(ex).__name__}: {ex}'[:300])
+    notes.pop('__text_mut__', None)
+    try:
         robustness_notes(ck, notes)
     except Exception as ex:
         notes[f'robustness probe failed: {type(ex).__name__}: {ex}'] = 1
@@ -640,7 +780,8 @@ def run(ck):
     ck.notes += [f'{k} (x{v})' for k, v in notes.items()]
     ck.notes.append(f"start mode of the code under test (probe): {mode}; 'last' = dict(...) keeps only the last CELL block per "
                     "instance name (theorems none_lost_false_lastWins, lastWins_keeps_last_only), 'merge' = every block kept (none_lost)")
-    ck.assumptions += ['lark grammar/lexer, float(), NumPy fancy assignment and the Verilog reader are exercised through generated texts, not modelled',
+    ck.assumptions += ['grammar/lexer of sdf.py: modelled (Model/SdfText.lean, round-trip theorem) and compared with lark on generated, hand-written and mutated texts; that lark implements the grammar as the model reads it is checked there, not proved',
+                       'float(), NumPy fancy assignment and the Verilog reader are exercised through generated texts, not modelled',
                        'the circuit is abstracted to two tables (line feeding a pin; fork line between two pins) exported from the real '
                        'Circuit by structural search (reader/reader_pin, fork names), independent of sdf.py',
                        'several IOPATHs from one input pin to different outputs overwrite each other by design (one delay per line): '
